@@ -16,6 +16,7 @@
     Modelled fragment (the tie generates exactly this):
       top level : AddTable, DropTable, RenameTable; PG: AddObject / DropObject / ModifyObject
                   (values appended) / RenameObject of enum types
+                  (code with the C16 repairs: enumIdent in RenameObject, schemaPrefix for every DROP INDEX)
       ModifyTable sub-changes : AddColumn, DropColumn, RenameColumn, AddIndex, DropIndex,
                   RenameIndex, AddForeignKey, DropForeignKey, AddCheck, DropCheck,
                   AddAttr / ModifyAttr of a table comment
@@ -35,7 +36,10 @@ Inductive ref :=
 | RSchemaRes (s : option bytes) (n : bytes)      (* Builder.SchemaResource *)
 | RType (ns : option bytes) (n : bytes)          (* state.typeIdent *)
 | RPrefixed (ns : option bytes) (n : bytes)      (* state.schemaPrefix(ns) + Ident(n) *)
-| RBare (n : bytes).                             (* Builder.Ident: no qualifying call *)
+| RBare (n : bytes)                              (* Builder.Ident of an EXISTING object: no qualifying call
+                                                    (no statement form uses it: RefSkeletonProofs) *)
+| RNew (n : bytes).                              (* Builder.Ident of a NEW name (ALTER TYPE ... RENAME TO n):
+                                                    a definition, bare by SQL syntax, not a reference *)
 
 (* the identifier chain a reference is written as under qualifier [q] *)
 Definition ref_chain (q : option bytes) (r : ref) : list bytes :=
@@ -46,6 +50,7 @@ Definition ref_chain (q : option bytes) (r : ref) : list bytes :=
   | RType ns n => qual_prefix q ns ++ [n]
   | RPrefixed ns n => qual_prefix q ns ++ [n]
   | RBare n => [n]
+  | RNew n => [n]
   end.
 
 Record stmt := mkStmt { s_rev : bool; s_head : bytes; s_refs : list ref }.
@@ -70,7 +75,7 @@ Inductive change :=
 | ModifyTable (t : tab) (subs : list sub)
 | AddObject (ns : option bytes) (n : bytes) | DropObject (ns : option bytes) (n : bytes)
 | ModifyObject (ns : option bytes) (n : bytes) (added : nat)
-| RenameObject (from to : bytes).
+| RenameObject (ns_from : option bytes) (from : bytes) (ns_to : option bytes) (to : bytes).
 
 (* statement heads (first two keywords), as bytes *)
 Definition h_create_table : bytes := [67;82;69;65;84;69;32;84;65;66;76;69].
@@ -98,9 +103,8 @@ Definition cmd (h : bytes) (rs : list ref) : stmt := mkStmt false h rs.
 Definition rev_of (s : stmt) : stmt := mkStmt true (s_head s) (s_refs s).
 
 (** * postgres: addIndexes / dropIndexes / comments *)
-(* addIndexes: CREATE INDEX name ON Table(t); reverse DROP INDEX [schemaPrefix if t.Schema != nil] name *)
-Definition pg_drop_index_ref (t : obj) (i : idx) : ref :=
-  match o_schema t with Some _ => RPrefixed (o_schema t) (i_name i) | None => RBare (i_name i) end.
+(* addIndexes: CREATE INDEX name ON Table(t); reverse DROP INDEX schemaPrefix(t.Schema) name *)
+Definition pg_drop_index_ref (t : obj) (i : idx) : ref := RPrefixed (o_schema t) (i_name i).
 Definition pg_add_index (t : obj) (i : idx) : list stmt :=
   [cmd h_create_index [RTable t]; mkStmt true h_drop_index [pg_drop_index_ref t i]].
 Definition pg_drop_index (t : obj) (i : idx) : list stmt :=
@@ -232,8 +236,8 @@ Definition plan_change (pg : bool) (c : change) : list stmt :=
   | AddObject ns n => [cmd h_create_type [RType ns n]; mkStmt true h_drop_type [RType ns n]]
   | DropObject ns n => [cmd h_drop_type [RType ns n]; mkStmt true h_create_type [RType ns n]]
   | ModifyObject ns n added => repeat_stmt added (cmd h_alter_type [RType ns n])
-  | RenameObject from to =>
-      [cmd h_alter_type [RBare from; RBare to]; mkStmt true h_alter_type [RBare to; RBare from]]
+  | RenameObject nsf from nst to =>   (* ALTER TYPE enumIdent(e1) RENAME TO Ident(e2.T) *)
+      [cmd h_alter_type [RType nsf from; RNew to]; mkStmt true h_alter_type [RType nst to; RNew from]]
   end.
 
 Definition plan_skel (pg : bool) (cs : list change) : list stmt := flat_map (plan_change pg) cs.
